@@ -618,9 +618,16 @@ class UCSReplication(MessagePassingComputation):
                     f"Received replication answer from {sender_name}, {msg}"
                 )
             agent = msg.rq_path[-1]  # last()
-            pending = self._pending_requests.pop(
-                (agent, msg.computation_def.name), False
-            )
+            # Several searches for a computation may be in progress (e.g.
+            # when two agents holding its replicas leave together): one
+            # pending entry for each request sent to this agent.
+            rq_key = (agent, msg.computation_def.name)
+            pending = self._pending_requests.get(rq_key)
+            if pending:
+                pending.pop(0)
+                if not pending:
+                    del self._pending_requests[rq_key]
+                pending = True
             if not pending:
                 # This request has already been answered on behalf of this
                 # agent, when it was reported as removed (see
@@ -897,7 +904,7 @@ class UCSReplication(MessagePassingComputation):
 
         # All request must be answered, otherwise the replication is stuck.
         # Keep track of all request sent.
-        self._pending_requests[(target_agt, comp_def.name)] = (
+        self._pending_requests.setdefault((target_agt, comp_def.name), []).append((
             budget,
             spent,
             rq_path,
@@ -907,7 +914,7 @@ class UCSReplication(MessagePassingComputation):
             footprint,
             replica_count,
             hosts[:],
-        )
+        ))
 
     def _send_answer(
         self,
@@ -1198,9 +1205,9 @@ class UCSReplication(MessagePassingComputation):
         ]
         for rq in lost_rqs:
             self.logger.warning("Lost request %s : %s", rq, self._pending_requests[rq])
-            rq_agt, rq_comp = rq
-            # send a fake answer for pending request, to avoid blocking replication
-            (
+            # send a fake answer for each pending request, to avoid blocking
+            # replication
+            for (
                 budget,
                 spent,
                 rq_path,
@@ -1210,18 +1217,18 @@ class UCSReplication(MessagePassingComputation):
                 footprint,
                 replica_count,
                 hosts,
-            ) = self._pending_requests.pop(rq)
-            self.on_replicate_answer(
-                budget,
-                spent,
-                rq_path,
-                paths,
-                visited,
-                comp_def,
-                footprint,
-                replica_count,
-                hosts,
-            )
+            ) in self._pending_requests.pop(rq):
+                self.on_replicate_answer(
+                    budget,
+                    spent,
+                    rq_path,
+                    paths,
+                    visited,
+                    comp_def,
+                    footprint,
+                    replica_count,
+                    hosts,
+                )
 
         pass
 
